@@ -111,6 +111,12 @@ def run_unit(unit, variant, scratch, rlimit=None, seed=None, extra_tag='', only_
     r.cmd = ' '.join(cmd)
     try:
         p = subprocess.run(cmd, cwd=scratch, capture_output=True, text=True, timeout=(150 if only_fn else unit.get('timeout', 900)))
+        if only_fn and 'more than one match found for --verify-function' in (p.stderr + p.stdout):
+            # --verify-function matches by substring (parse / parse_hms / ..): check the whole unit instead, the caller filters by function
+            k = cmd.index('--verify-root')
+            cmd = cmd[:k] + cmd[k + 3:]
+            r.cmd = ' '.join(cmd)
+            p = subprocess.run(cmd, cwd=scratch, capture_output=True, text=True, timeout=unit.get('timeout', 900))
     except subprocess.TimeoutExpired:
         r.status = 'undecided'
         r.reason = 'verus timeout'
@@ -457,11 +463,24 @@ def _check_property(prop, tier, seed, mine, scratch, findings, t0):
         if r2.status == 'ok' and not still:
             # the very same obligation verifies with more resources and another seed: an unstable proof, not a violation
             unstable.append('%s/%s::%s failed once and verified on retry (unstable proof)' % (r.unit['name'], r.variant, e['fn']))
-        elif any(x['definite'] for x in still):
-            confirmed.append((r, [x for x in still if x['definite']][0]))
+            discharged += 1
         else:
-            # the retry was inconclusive (timeout / rlimit): the definite failure of the first run stands
-            confirmed.append((r, e))
+            # still failing (or inconclusive): a failure has to persist under the other arithmetic setting as well - a proof found under
+            # either setting is a proof (overflow obligations on products such as `count * size` need smt.arith.nl, other queries
+            # diverge with it)
+            cur = r.unit.get('smt_options', ['smt.arith.nl=true'])
+            alt = [] if 'smt.arith.nl=true' in cur else ['smt.arith.nl=true']
+            r3 = run_unit(r.unit, r.variant, scratch, rlimit=r.unit.get('rlimit', 60), seed=13 + seed, extra_tag='_alt2', only_fn=e['fn'], smt_override=alt)
+            still3 = [x for x in r3.errors if x['fn'] == e['fn']]
+            if r3.status == 'ok' and not still3:
+                discharged += 1
+                unstable.append('%s/%s::%s fails under %s and verifies under %s (a proof exists: not a violation)' % (
+                    r.unit['name'], r.variant, e['fn'], cur or 'linear arithmetic', alt or 'linear arithmetic'))
+            elif any(x['definite'] for x in still):
+                confirmed.append((r, [x for x in still if x['definite']][0]))
+            else:
+                # the retry was inconclusive (timeout / rlimit): the definite failure of the first run stands
+                confirmed.append((r, e))
 
     # ---------------- thorough: extra seeds for stability ----------------
     stab = []
